@@ -5,6 +5,7 @@ documented path semantics).  Only property statements live here; helpers are in 
 import MagpyVerif.Lemmas.Path
 import MagpyVerif.Lemmas.Tree
 import MagpyVerif.Lemmas.Angax
+import MagpyVerif.Lemmas.OctaCarrier
 namespace MagpyVerif.C09
 open MagpyVerif Gen Spec
 variable {G V : Type}
@@ -214,5 +215,46 @@ example : angaxRotvecs (.scalar (90 : ℝ)) (.str "z") true = .ok (.scalar ⟨0,
   ring
 example : angaxRotvecs (.vector [(1 : ℝ), 2]) (.vec ⟨0, 0, 0⟩) false = .error .badUserInput :=
   (angax_rotvec_spec _ _ _).1 _ angax_axis_spec.2.2.2.2.1
+
+
+/-! ### on the carrier the driver computes with (AUDIT X1)
+
+Every theorem of this file about `move` / `rotate` / the setters / histories is stated with the bare operation
+classes (`[Mul G] [SMul G V] [Add V] [Sub V]` …), not over a `Group`: they apply *verbatim* to the carrier the
+driver computes with (`M3 Int`, `V3 Int`, instances of Model/Basic.lean), for arbitrary integer matrices — no
+group law is used by the path semantics.  Recorded here as explicit instances; in addition, on octahedral
+matrices the driver's evaluation is the evaluation at the group `Oct` (Lemmas/OctaCarrier.lean), which is what
+C10 needs. -/
+section driverCarrier
+
+/-- **C09(b) on the driver's carrier** — an instance of `rotate_refines_spec`; no hypothesis on the matrices -/
+theorem rotate_refines_spec_on_driver_carrier (rot : PathIn (M3 Int)) (anchor : Option (PathIn (V3 Int)))
+    (start : Option Int) (o : ObjZ) (hne : o.pos ≠ []) (hlen : o.ori.length = o.pos.length)
+    (hr : rot.WF) (ha : ∀ a, anchor = some a → a.WF) (i : Nat) :
+    ((applyRotation rot anchor start none o).pos[i]?,
+     (applyRotation rot anchor start none o).ori[i]?) =
+      rotateAt rot anchor start o.pos o.ori i :=
+  rotate_refines_spec rot anchor start o hne hlen hr ha i
+
+/-- **C09(c) on the driver's carrier** — an instance of `lengths_equal_ge1` -/
+theorem lengths_equal_ge1_on_driver_carrier (t : Node (M3 Int) (V3 Int)) (ops : List (Op (M3 Int) (V3 Int)))
+    (h : t.All Obj.Inv) : (ops.foldl Node.step t).All Obj.Inv :=
+  lengths_equal_ge1 t ops h
+
+/-- the driver's `rotate` on octahedral data is the inclusion of `rotate` evaluated at the group `Oct`:
+rotations compose as group elements (`R_k * old` with the group product) -/
+theorem rotate_on_driver_carrier_is_group_rotate (rot : PathIn Oct) (anchor : Option (PathIn (V3 Int)))
+    (start : Option Int) (pp : Option (List (V3 Int))) (o : Obj Oct (V3 Int)) :
+    applyRotation rot.toM3 anchor start pp o.toM3 = (applyRotation rot anchor start pp o).toM3 :=
+  applyRotation_at_Oct_eq_at_M3Int rot anchor start pp o
+
+-- non-vacuity: 90° about z about the anchor (1,0,0), appended (vector input, start=auto) to a path of length 1:
+-- evaluated as the driver evaluates it
+open Level2.DriverExample in
+example : applyRotation (G := M3 Int) (V := V3 Int) (.vector [rotZ90]) (some (.scalar ⟨1, 0, 0⟩)) none none
+    ⟨[⟨2, 0, 0⟩], [rotX90]⟩ = ⟨[⟨2, 0, 0⟩, ⟨1, 1, 0⟩], [rotX90, rotZ90 * rotX90]⟩ := by decide
+open Level2.DriverExample in
+example : (⟨[⟨2, 0, 0⟩], [rotX90]⟩ : ObjZ).pos ≠ [] ∧ (PathIn.vector [rotZ90]).WF := ⟨by simp, by simp [PathIn.WF]⟩
+end driverCarrier
 
 end MagpyVerif.C09
